@@ -210,6 +210,24 @@ def objset_shared_by_two_specializations(text):
     return False
 
 
+def open_type_in_nested_struct(text):
+    """a component relation constraint `{@...}` written inside a SEQUENCE / SET / CHOICE that is itself inside another one"""
+    t = strip_comments(text)
+    stack = []
+    for m in re.finditer(r"\b(SEQUENCE|SET|CHOICE)\s*\{|\{\s*@|\{|\}", t):
+        tok = m.group(0)
+        if tok == "}":
+            if stack:
+                stack.pop()
+        elif m.group(1):
+            stack.append("struct")
+        else:
+            if "@" in tok and stack.count("struct") >= 2:
+                return True
+            stack.append("other")
+    return False
+
+
 def real_reference_with_range(text):
     """a reference to a type whose chain ends in REAL, used with a value constraint (not WITH COMPONENTS)"""
     t = strip_comments(text)
@@ -233,7 +251,7 @@ def match_finding(stage, job):
         if "asn1p_parse: Assertion `!TQ_FIRST" in err and has_of_with_sized_of_element(text):
             return "C10-of-of-size-assert"
         if job["rc"] == -6 and "Cannot compile" in err and "asn1c_lang_C_type_SEQUENCE: Assertion `arg->target->target == OT_TYPE_DECLS" in err \
-           and re.search(r"\{[^{}]*\b(SEQUENCE|SET)\s*\{[^{}]*\.&[A-Z][\w-]*\s*\(\s*\{[^{}]*\}\s*\{\s*@", strip_comments(text)):
+           and open_type_in_nested_struct(text):
             return "C10-component-emitter-failure-assert"
         if job["rc"] == -11 and left_recursive_choice(text):
             return "C11-leftrec-crash"
